@@ -3,11 +3,13 @@
                      harness checked against the REAL ClaimHash(); and whenever the real ValidateBasic
                      accepted the claim the model's wf must hold (wf is implied by validity)
    Cases_C03_pairs.v two claims per case: the model's pre-images are equal iff the real hashes are *)
-From Coq Require Import ZArith List Bool.
-From Coq Require Export String.
+From Coq Require Import ZArith List Bool String.
 From FxV Require Import model.M_ClaimHash.
 Import ListNotations.
 Open Scope Z_scope.
+
+(* the harness writes a claim as the list of its field values in struct order *)
+Definition zipc (sp : spec) (vals : list fval) : claim := combine (map fst (s_fields sp)) vals.
 
 Record ch_case := mk_ch_case {
   cc_spec : spec; cc_claim : claim;
